@@ -84,8 +84,8 @@ func c19B(secret, rhex string) string {
 // c19Counters: scan the whole transport log: which deterministic outputs were submitted for signing and signed.
 func c19Counters(w *wworld.World) {
 	idx := c19Index(w, 80)
-	signed := map[string]bool{}       // B_ signed
-	maxSigned := map[string]uint32{}  // wallet|keyset -> max signed counter
+	signed := map[string]bool{}      // B_ signed
+	maxSigned := map[string]uint32{} // wallet|keyset -> max signed counter
 	hasSigned := map[string]bool{}
 	for _, ex := range w.R.Log {
 		if ex.Method != "POST" {
